@@ -14,7 +14,8 @@
 //! followed by a real upload of the same content.
 //! Metrics (C14): per file total_bytes == bytes fed and new + deduped == total (bytes and chunks); finalize()'s totals == sums of
 //! the per-file metrics; shard_bytes_uploaded == bytes of the shard files that reached the store (also with several shards per
-//! session, HF_XET_MDB_SHARD_MIN_TARGET_SIZE=4096).  xorb_bytes_uploaded is NOT checked (snapshotted early on HEAD).
+//! session, HF_XET_MDB_SHARD_MIN_TARGET_SIZE=4096); xorb_bytes_uploaded == bytes of the xorb objects that appeared in the local store /
+//! body bytes of the xorb uploads the HTTP store accepted; total_bytes_uploaded == shard_bytes_uploaded + xorb_bytes_uploaded.
 //! The limits are read once per process: the program re-executes itself per configuration (8 KiB chunks, 40,960-byte / 8-chunk
 //! xorbs; the same with 4 KiB minimum shard size).  Prints `WITNESS ...` and exits 1 on the first violation.
 //!
@@ -437,6 +438,34 @@ fn metrics_check(files: &[FileIn], o: &Outcome) -> Result<(), String> {
         let per: Vec<String> = files.iter().zip(&o.file_metrics).map(|(f, m)| format!("'{}' total {} new {} deduped {} / chunks {} {} {}", f.name, m.total_bytes, m.new_bytes, m.deduped_bytes, m.total_chunks, m.new_chunks, m.deduped_chunks)).collect();
         return Err(format!("finalize() reports (total, deduped, new, global, withheld bytes; same for chunks) {a:?} but the per-file metrics returned by finish() sum to {b:?}; files: {}", per.join("; ")));
     }
+    total_uploaded_check(s)
+}
+/// C14: total_bytes_uploaded == shard_bytes_uploaded + xorb_bytes_uploaded
+fn total_uploaded_check(s: &DeduplicationMetrics) -> Result<(), String> {
+    if s.total_bytes_uploaded != s.shard_bytes_uploaded + s.xorb_bytes_uploaded {
+        return Err(format!("finalize() reports total_bytes_uploaded = {} but shard_bytes_uploaded + xorb_bytes_uploaded = {} + {}", s.total_bytes_uploaded, s.shard_bytes_uploaded, s.xorb_bytes_uploaded));
+    }
+    Ok(())
+}
+/// xorb objects of a local store: file name -> size
+fn xorb_files(store: &Path) -> BTreeMap<String, u64> {
+    let mut m = BTreeMap::new();
+    if let Ok(rd) = std::fs::read_dir(xorb_dir(store)) {
+        for e in rd.flatten() {
+            let n = e.file_name().to_string_lossy().to_string();
+            if n.starts_with("default.") { m.insert(n, e.metadata().map(|m| m.len()).unwrap_or(0)); }
+        }
+    }
+    m
+}
+/// C14 against a local store: LocalClient::put reports the bytes of the object it wrote and 0 for an object that exists already, so
+/// xorb_bytes_uploaded == total size of the xorb objects that appeared in the store during the session
+fn xorb_bytes_check(before: &BTreeMap<String, u64>, after: &BTreeMap<String, u64>, s: &DeduplicationMetrics) -> Result<(), String> {
+    let new: Vec<(&String, &u64)> = after.iter().filter(|(n, _)| !before.contains_key(*n)).collect();
+    let bytes: u64 = new.iter().map(|(_, b)| **b).sum();
+    if s.xorb_bytes_uploaded as u64 != bytes {
+        return Err(format!("finalize() reports xorb_bytes_uploaded = {} (total_bytes_uploaded = {}, shard_bytes_uploaded = {}) but {} new xorb object(s) of {bytes} bytes in total appeared in the store during the session (sizes {:?})", s.xorb_bytes_uploaded, s.total_bytes_uploaded, s.shard_bytes_uploaded, new.len(), new.iter().map(|(_, b)| **b).collect::<Vec<_>>()));
+    }
     Ok(())
 }
 
@@ -512,21 +541,27 @@ async fn run_history(cx: &mut Ctx, name: &str, steps: &[Step]) -> Option<String>
     let mut trail: Vec<String> = vec![];
     // chunks stored by the successful sessions of the first machine
     let mut known: std::collections::HashSet<[u8; 32]> = Default::default();
+    // the previous session ended (dropped / failed) while uploads could still be running in the background
+    let mut lingering = false;
     for (si, st) in steps.iter().enumerate() {
         let files_text: Vec<String> = st.files.iter().map(|f| format!("'{}' ({}, {} bytes)", f.name, f.what, f.data.len())).collect();
         let before = shard_files(&store);
+        let xorbs_before = xorb_files(&store);
         let local_dir = if st.opts.fresh_local { root.path().join(format!("local-of-machine-{}", si + 2)) } else { local.clone() };
         let cfg = local_store_p(&store, &local_dir, cx.policy);
         let cached_before = mdb_files(&cfg.shard_config.cache_directory);
         let o = run_session_opts(cfg.clone(), cx.tp.clone(), Some(&store), &st.files, &st.fault, &st.opts).await;
         // repair everything before checking
         repair_all(&cfg, Some(&store));
+        let xorbs_after = xorb_files(&store);
         if let Fault::Planted(h, _) = &st.fault {
             let p = xorb_path(&store, h);
             if std::fs::metadata(&p).map(|m| m.len() == 64).unwrap_or(false) { let _ = std::fs::remove_file(&p); }
         }
         trail.push(format!("session {}{}: files {} with {} -> {}", si + 1, opts_text(&st.opts), files_text.join(", "), fault_text(&st.fault), o.error.clone().map(|e| format!("error from {e}")).unwrap_or("every call Ok".into())));
         eprintln!("[{name}] {}", trail.last().unwrap());
+        let uploads_may_linger = lingering;
+        lingering = o.error.is_some() && (st.opts.one_call || st.opts.abandon == Some(true));
         let policy_text = if cx.policy == GlobalDedupPolicy::Always { ", global dedup policy Always" } else { "" };
         let ctx = format!("config {}{policy_text}; history '{name}' (one process, one store, one shard cache): {}", cx.cfg_name, trail.join(" | "));
         match &o.error {
@@ -541,6 +576,12 @@ async fn run_history(cx: &mut Ctx, name: &str, steps: &[Step]) -> Option<String>
                 }
                 if let Err(e) = global_counters_check(&st.files, &o, cx.policy) {
                     return Some(format!("{ctx}: session {}: {e}", si + 1));
+                }
+                // (not after a session that was dropped or failed with uploads still running: those finish in the background)
+                if let (Some(m), false) = (&o.session_metrics, uploads_may_linger) {
+                    if let Err(e) = xorb_bytes_check(&xorbs_before, &xorbs_after, m) {
+                        return Some(format!("{ctx}: session {}: {e}", si + 1));
+                    }
                 }
                 let after = shard_files(&store);
                 let new_bytes: u64 = after.iter().filter(|(n, v)| before.get(*n) != Some(*v)).map(|(_, s)| s.0).sum();
@@ -640,6 +681,8 @@ struct HttpState {
     shard_posts: Vec<(String, bool)>,
     shard_bodies: Vec<Vec<u8>>,
     shard_bytes_accepted: u64,
+    /// total body length of the accepted POST /xorb requests (an answer was_inserted:false counts: the bytes were transmitted)
+    xorb_bytes_accepted: u64,
     in_flight: usize,
     max_in_flight: usize,
     chunk_queries: usize,
@@ -720,6 +763,7 @@ fn handle(stream: &mut TcpStream, store: &Arc<HttpStore>, method: String, path: 
                 let close = st.xorb_close_once == Some(idx);
                 if close { st.xorb_close_once = None; st.closed_without_answer += 1; }
                 st.xorb_posts.push((hash.clone(), !reject && !close));
+                if !reject && !close { st.xorb_bytes_accepted += body.len() as u64; }
                 st.in_flight += 1;
                 st.max_in_flight = st.max_in_flight.max(st.in_flight);
                 (reject, st.hold_index == Some(idx) && st.reject_index.is_some(), close, st.delay_ms, st.mirror.clone(), st.xorb_not_inserted)
@@ -812,21 +856,29 @@ fn start_http_store() -> (Arc<HttpStore>, String) {
 }
 
 /// One-call feed and immediate finalize (no pauses): the uploads are still in flight when finalize joins them.
-async fn quick_session(cfg: Arc<TranslatorConfig>, tp: Arc<ThreadPool>, f: &FileIn, dry_run: bool) -> Result<(), String> {
+async fn quick_session(cfg: Arc<TranslatorConfig>, tp: Arc<ThreadPool>, f: &FileIn, dry_run: bool) -> Result<DeduplicationMetrics, String> {
     let session = if dry_run { FileUploadSession::dry_run(cfg, tp, None).await } else { FileUploadSession::new(cfg, tp, None).await }.map_err(|e| format!("new: {e}"))?;
     let mut cleaner = session.start_clean(f.name.clone());
     cleaner.add_data(&f.data).await.map_err(|e| format!("add_data: {e}"))?;
     cleaner.finish().await.map_err(|e| format!("finish: {e}"))?;
-    session.finalize().await.map_err(|e| format!("finalize: {e}"))?;
-    Ok(())
+    session.finalize().await.map_err(|e| format!("finalize: {e}"))
 }
 
 async fn http_histories(cx: &mut Ctx, f: &FileIn) -> Option<String> {
     // reference: how many xorbs does this file produce?
     let root = tempfile::tempdir().unwrap();
     let (st, url) = start_http_store();
-    if let Err(e) = quick_session(config(Endpoint::Server(url), &root.path().join("l0")), cx.tp.clone(), f, false).await {
-        return Some(format!("config {}: session against a healthy HTTP store fails: {e}", cx.cfg_name));
+    match quick_session(config(Endpoint::Server(url), &root.path().join("l0")), cx.tp.clone(), f, false).await {
+        Err(e) => return Some(format!("config {}: session against a healthy HTTP store fails: {e}", cx.cfg_name)),
+        Ok(m) => {
+            // C14: what finalize() reports as uploaded is what the store was sent
+            let (n, xb, sb) = { let s = st.state.lock().unwrap(); (s.xorb_posts.len(), s.xorb_bytes_accepted, s.shard_bytes_accepted) };
+            let ctx = format!("config {}; session of file '{}' ({} bytes, one add_data call, immediate finalize) against a healthy HTTP store", cx.cfg_name, f.name, f.data.len());
+            if m.xorb_bytes_uploaded as u64 != xb || m.shard_bytes_uploaded as u64 != sb {
+                return Some(format!("{ctx}: finalize() reports xorb_bytes_uploaded = {}, shard_bytes_uploaded = {}, total_bytes_uploaded = {} but the store received {n} xorb uploads with {xb} body bytes and shard uploads with {sb} body bytes", m.xorb_bytes_uploaded, m.shard_bytes_uploaded, m.total_bytes_uploaded));
+            }
+            if let Err(e) = total_uploaded_check(&m) { return Some(format!("{ctx}: {e}")); }
+        },
     }
     let n = st.state.lock().unwrap().xorb_posts.len();
     if n < 2 || st.state.lock().unwrap().shards == 0 {
@@ -1398,6 +1450,7 @@ fn start_mirrored_store(mirror: &Path, script: &Script) -> (Arc<HttpStore>, Stri
 /// have happened.  Returns the outcome for further use.
 async fn http_checked_session(cx: &mut Ctx, what: &str, st: &Arc<HttpStore>, url: &str, mirror: &Path, local: &Path, scratch: &Path, files: &[FileIn], opts: &Opts, policy: GlobalDedupPolicy) -> Result<Outcome, String> {
     if st.state.lock().unwrap().last_session_failed { quiesce(st).await; }
+    let xb0 = st.state.lock().unwrap().xorb_bytes_accepted;
     let (x0, s0, bytes0, q0, closed0) = { let s = st.state.lock().unwrap(); (s.xorb_posts.len(), s.shard_posts.len(), s.shard_bytes_accepted, s.chunk_queries, s.closed_without_answer) };
     let o = run_session_opts(config_p(Endpoint::Server(url.to_string()), local, policy), cx.tp.clone(), None, files, &Fault::None, opts).await;
     st.state.lock().unwrap().last_session_failed = o.error.is_some();
@@ -1426,6 +1479,12 @@ async fn http_checked_session(cx: &mut Ctx, what: &str, st: &Arc<HttpStore>, url
             global_counters_check(files, &o, policy).map_err(|e| format!("{ctx}: {e}"))?;
             let reported = o.session_metrics.as_ref().map(|m| m.shard_bytes_uploaded as u64).unwrap_or(0);
             if reported != shard_bytes && !opts.dry_run { return Err(format!("{ctx}: finalize() reports shard_bytes_uploaded = {reported} but the store accepted {} shard(s) of {shard_bytes} bytes in total", shards.len())); }
+            let xorb_bytes = st.state.lock().unwrap().xorb_bytes_accepted - xb0;
+            if let (Some(m), false) = (&o.session_metrics, opts.dry_run) {
+                if m.xorb_bytes_uploaded as u64 != xorb_bytes {
+                    return Err(format!("{ctx}: finalize() reports xorb_bytes_uploaded = {} (total_bytes_uploaded = {}, shard_bytes_uploaded = {}) but the bodies of the {} accepted xorb upload(s) had {xorb_bytes} bytes in total", m.xorb_bytes_uploaded, m.total_bytes_uploaded, m.shard_bytes_uploaded, xorbs.iter().filter(|p| p.1).count()));
+                }
+            }
             for (f, p) in files.iter().zip(&o.pointers) {
                 download_check(mirror, scratch, cx.tp.clone(), f, p, &mut cx.n_download).await.map_err(|e| format!("{ctx}: every call returned Ok, but (reading the objects the store accepted) {e}"))?;
             }
@@ -1707,7 +1766,15 @@ async fn concurrent_histories(tp: Arc<ThreadPool>, cfg_name: String, seed: u64) 
             }
         }
         if let Some(e) = failed { return Some(format!("{ctx}: a session without injected fault fails: {e}")); }
-        if let Err(e) = session.finalize().await { return Some(format!("{ctx}: finalize fails on a healthy store: {e}")); }
+        let m = match session.finalize().await { Ok(m) => m, Err(e) => return Some(format!("{ctx}: finalize fails on a healthy store: {e}")) };
+        // C14 under every completion order of the background uploads (fresh store: every xorb object is new)
+        if let Err(e) = xorb_bytes_check(&BTreeMap::new(), &xorb_files(&store), &m).and_then(|_| total_uploaded_check(&m)) {
+            return Some(format!("{ctx}: every call returned Ok, but {e}"));
+        }
+        let shard_bytes: u64 = shard_files(&store).values().map(|v| v.0).sum();
+        if m.shard_bytes_uploaded as u64 != shard_bytes {
+            return Some(format!("{ctx}: every call returned Ok, but finalize() reports shard_bytes_uploaded = {} and the store holds shard files of {shard_bytes} bytes in total", m.shard_bytes_uploaded));
+        }
         let mut lost = vec![];
         for (f, p) in files.iter().zip(&pointers) {
             if let Err(e) = download_check(&store, root.path(), cx.tp.clone(), f, p.as_ref().unwrap(), &mut cx.n_download).await {
